@@ -34,6 +34,8 @@ THEOREMS = [
     "Nix.C11.C11_session_flag",
     "Nix.C11.C11_readonly_frame",
     "Nix.C11.C11_readonly_history",
+    "Nix.C11.C11_open_keeps",
+    "Nix.C11.C11_conservative_history",
 ]
 ASSUMPTIONS = [
     "nixio has no write guard of its own: that libhdf5 refuses every write through a handle opened ACC_RDONLY is "
@@ -56,6 +58,35 @@ T_SESSION = 1600000000     # controlled clock inside sessions under test
 
 def extract(repo):
     return _ex.extract(repo)
+
+
+# anchor fingerprints (DESIGN 2.3 F): a changed hash is not an alarm, it only raises the quick-tier budgets
+ANCHORS = {
+    "nixio/file.py": {"can_write": "f9d83f6f3a8abb39", "can_read": "8085a456a43879f4", "FileMode": "1940d1e9fefb9a61",
+                      "map_file_mode": "8f33b4db03bd99d1", "__init__": "9566de7fd0a40144",
+                      "_create_header": "3808df3bea0cbab3", "_check_header": "27be39356d1b8c0d",
+                      "_set_id": "9ec423d5720a6e28", "_set_version": "a38d32450054e0f2",
+                      "_set_format": "c78ee05a754014fc"},
+    "nixio/util/util.py": {"is_uuid": "680f787387136285", "create_id": "6bf57a70ea28defd"},
+}
+_changed_cache = {}
+
+
+def changed_anchors():
+    if "v" not in _changed_cache:
+        out = []
+        for rel, want in ANCHORS.items():
+            got = core.func_fingerprint(rel, list(want))
+            out += ["%s:%s" % (rel, k) for k in want if got.get(k) != want[k]]
+        _changed_cache["v"] = sorted(out)
+    return _changed_cache["v"]
+
+
+def B(ctx, quick, thorough):
+    """budget: the quick tier is widened (x4, at most the thorough value) when an anchored function changed"""
+    if ctx.quick() and changed_anchors():
+        return min(thorough, 4 * quick)
+    return ctx.budget(quick, thorough)
 
 
 # ---------------------------------------------------------------------------------------
@@ -274,11 +305,11 @@ def build_rich(path, seed):
                                          label="L", unit="mV")
                 attempt("setdim", lambda: da.append_set_dimension(["l%d" % i for i in range(n1)]))
                 attempt("sampleddim", lambda: da.append_sampled_dimension(0.5, label="t", unit="s"))
+                da3 = b.create_data_array(nm("s"), "arr.t", data=[0.5, 1.5, 2.5])
+                attempt("dimlink", lambda: da3.append_range_dimension_using_self())
                 da2 = b.create_data_array(nm("r"), "arr.t", data=[1.0, 2.0, 3.0][:r.randint(2, 3)])
                 attempt("rangedim", lambda: da2.append_range_dimension([1.0, 2.0, 3.0][:len(da2)], label="r",
                                                                        unit="ms"))
-                da3 = b.create_data_array(nm("s"), "arr.t", data=[0.5, 1.5, 2.5])
-                attempt("dimlink", lambda: da3.append_range_dimension_using_self())
                 attempt("dataframe", lambda: b.create_data_frame(nm("df"), "df.t", col_dict={"n": str, "v": float},
                                                                  data=[("a", 1.0), ("b", 2.0)]))
                 g = b.create_group(nm("g"), "grp.t")
@@ -1069,7 +1100,7 @@ def gen_cases(ctx):
     # --- pure functions -------------------------------------------------------------------
     for s in GOOD_IDS + BAD_IDS:
         add("is_uuid.fixed", ["is_uuid", s])
-    for s in gen_id_strings(rng, ctx.budget(4000, 60000)):
+    for s in gen_id_strings(rng, B(ctx, 4000, 60000)):
         add("is_uuid.gen", ["is_uuid", s])
     wide = version_grid(lib, True)
     for v in wide:
@@ -1079,7 +1110,7 @@ def gen_cases(ctx):
     for v in odd:
         add("can_read.odd", ["can_read", v])
         add("can_write.odd", ["can_write", v])
-    for _ in range(ctx.budget(300, 3000)):
+    for _ in range(B(ctx, 300, 3000)):
         n = rng.choice([0, 1, 2, 3, 3, 3, 3, 4, 5])
         v = [rng.choice([0, 1, 2, 3, lib[0], lib[1], lib[2], -1, 10, 2 ** 31 - 1]) for _ in range(n)]
         add("can_read.random", ["can_read", v])
@@ -1109,7 +1140,7 @@ def gen_cases(ctx):
                     if tag == "hdf" and ctx.quick() and rng.random() < 0.6:
                         continue
                     one_open("file.grid", full_disk(tag, v, idv), mode)
-    for _ in range(ctx.budget(150, 2000)):
+    for _ in range(B(ctx, 150, 2000)):
         v = rng.choice(wide) if rng.random() < 0.8 else rng.choice([x for x in odd if x is not None])
         disk = full_disk(rng.choice(tags + ["nix"] * 8), v, rng.choice(GOOD_IDS + BAD_IDS + [VALID_ID] * 4),
                          *[rng.random() < 0.85 for _ in range(4)])
@@ -1125,7 +1156,7 @@ def gen_cases(ctx):
         one_open("file.missing", None, mode)
 
     # --- histories: several sessions with content ------------------------------------------
-    for _ in range(ctx.budget(60, 800)):
+    for _ in range(B(ctx, 60, 800)):
         add("history", gen_history(rng, lib, fid))
     return cases, dist
 
@@ -1312,12 +1343,13 @@ def correspondence(ctx):
                     "reads agree, h5py digest of the whole file unchanged. non-trivial = error / True / any file case",
             "samples": samples,
             "distribution": {"ops": dist, "impl_outcomes": outcomes,
+                             "changed_anchors": changed_anchors(),
                              "readonly": {"files": ro_info["files"], "mutating_calls": ro_info["calls"],
                                           "members_mutating": len([1 for v in ro_info["members"].values()
                                                                    if v == "mutating"]),
                                           "members_without_mutating_candidate": uncovered,
                                           "entity_kinds_built": ro_info["built"]}},
-            "disagreements": disagreements, "exhaustive": False}
+            "disagreements": disagreements, "exhaustive": False, "changed_anchors": changed_anchors()}
 
 
 def first_difference(events, cm, ci):
@@ -1649,7 +1681,7 @@ def oracle(ctx, broken, hints):
     for m in ("r", "a", "w"):
         cases.append(["missing", m])
     grid = version_grid(lib, broken or not ctx.quick())
-    n = 1500 if broken else ctx.budget(250, 3000)
+    n = 1500 if broken else B(ctx, 250, 3000)
     for _ in range(n):
         cases.append(["gate", rng.choice(["r", "a", "w", "r", "a"]), rng.choice(["nix"] * 6 + ["hdf", "NIX", None, ""]),
                       rng.choice(grid), rng.choice([VALID_ID] * 4 + GOOD_IDS + BAD_IDS)])
